@@ -153,7 +153,12 @@ static int check_endm(char *macro, int ptr)
     ptr--;
   }
 
-  ptr++;
+  // Step over the white space in front of the word, if there is any: a
+  // word that starts the macro text (an empty macro) starts at index 0.
+  if (ptr < 0 || macro[ptr] == '\n' || macro[ptr] == ' ' || macro[ptr] == '\t')
+  {
+    ptr++;
+  }
 
   if (strncasecmp(macro + ptr, ".endm", 5) == 0)
   {
